@@ -33,6 +33,10 @@ type Opts struct {
 	Setup func(r *rib.RIB)
 	// NoVRFs: do not create VRF-A / VRF-B up front (the caller does).
 	NoVRFs bool
+	// ObserveEvery > 1: read the whole RIB back (and compare it with the fold and the
+	// model) only every n-th step and after the last one; results, held set and
+	// counters are still checked after every step. For histories with hundreds of entries.
+	ObserveEvery int
 }
 
 // Trace summarises what happened, for non-triviality rules.
@@ -247,15 +251,18 @@ func Run(h hgen.History, o Opts) (*ev.Verdict, *Trace) {
 			}
 		}
 
-		got, err := obs.FromRIB(r)
-		if err != nil {
-			v.Fail(P+"/contents-unreadable", "%s: cannot read RIB contents: %v", when, err)
-			return v, tr
+		ok1 := true
+		if o.ObserveEvery <= 1 || i%o.ObserveEvery == o.ObserveEvery-1 || i == len(h.Steps)-1 || len(v.Findings) > 0 {
+			got, err := obs.FromRIB(r)
+			if err != nil {
+				v.Fail(P+"/contents-unreadable", "%s: cannot read RIB contents: %v", when, err)
+				return v, tr
+			}
+			if d := obs.Diff(fold, got); len(d) > 0 {
+				v.Fail(P+"/fold-mismatch:"+obs.DiffClass(d), "%s: installed entries are not the fold of the acknowledged operations: %s", when, strings.Join(d, "; "))
+			}
+			ok1 = obs.CheckInstalled(m, got, v, P+"/installed-vs-model", when)
 		}
-		if d := obs.Diff(fold, got); len(d) > 0 {
-			v.Fail(P+"/fold-mismatch:"+obs.DiffClass(d), "%s: installed entries are not the fold of the acknowledged operations: %s", when, strings.Join(d, "; "))
-		}
-		ok1 := obs.CheckInstalled(m, got, v, P+"/installed-vs-model", when)
 		obs.CheckHeld(m, r, v, P+"/held-vs-model", when)
 		obs.CheckCounters(m, r, v, P+"/counter-vs-referrers", when)
 		if o.Closure && !partialFlushed {
